@@ -87,6 +87,8 @@ def gen_array(rnd, kind):
         a["data"] = [float(round(data[0])) if data[0] == data[0] and abs(data[0]) != float("inf") else 0.0]
     if shape and rnd.random() < 0.12:
         a["as"] = rnd.choice(["list", "list", "tuple"])  # the caller passes a (nested) Python list / tuple
+    elif len(shape) == 1 and rnd.random() < 0.1:
+        a["as"] = rnd.choice(["strided", "negstride", "series"])  # non-contiguous / negative-stride view, pandas Series
     elif shape and kind == "thr" and rnd.random() < 0.1:
         a["as"] = "int"  # integer-dtype thresholds
         a["data"] = [float(round(v)) if abs(v) != float("inf") else 0.0 for v in data]
@@ -337,6 +339,8 @@ def build_arg(a):
         arr = arr.astype(np.int64)
     if a.get("readonly"):
         arr.flags.writeable = False
+    if a.get("as") in ("strided", "negstride", "series"):
+        return M.wrap_container(arr, a["as"], [])
     return arr
 
 
@@ -452,7 +456,7 @@ def shape_law(o, op, x, r, L):
     """Returns an error string or None."""
     k = op["op"]
     X = np.shape(x) if x is not None else None
-    scalar_in = x is not None and not isinstance(x, (np.ndarray, list, tuple))
+    scalar_in = x is not None and not isinstance(x, (np.ndarray, list, tuple)) and not hasattr(x, "__len__")
     if k == "cm":
         if not isinstance(r, L.ConfusionMatrix) or r.matrix.shape != X + (2, 2) or not r.binary:
             return f"cm(shape {X}) returned matrix of shape {getattr(getattr(r, 'matrix', None), 'shape', None)}"
@@ -549,7 +553,14 @@ def execute(scn, ctx):
         return {"violations": early, "trace": [["construction-failed"]], "stats": {"ops": 0, "faults": {}, "probes": {}},
                 "signature": "construction-failed", "nontrivial": False, "states": []}
     args = {i: build_arg(a) for i, a in enumerate(scn["arrays"])}
-    arg_fp = {i: M.fingerprint(v) if isinstance(v, np.ndarray) else repr(v) for i, v in args.items()}
+    def _afp(v):
+        if isinstance(v, np.ndarray):
+            return M.fingerprint(v)
+        if hasattr(v, "index") and hasattr(v, "to_numpy"):
+            return M.fingerprint([v.to_numpy(), np.asarray(v.index)])
+        return repr(v)
+
+    arg_fp = {i: _afp(v) for i, v in args.items()}
     viol, trace, sig = list(early), [], []
     probes, faults = {}, {}
     n_draws = n_forced = n_lines = 0
@@ -620,7 +631,7 @@ def execute(scn, ctx):
                 viol.append({"invariant": "C10.caller_array_unchanged", "detail": f"arrays given to the constructor of pool[{i}] changed {where}", "tags": tags})
                 cfps[i] = M.fingerprint(list(c.values()))
         for i, v in args.items():
-            now = M.fingerprint(v) if isinstance(v, np.ndarray) else repr(v)
+            now = _afp(v)
             if now != arg_fp[i]:
                 viol.append({"invariant": "C10.caller_array_unchanged", "detail": f"side-pool array #{i} changed {where}", "tags": tags})
                 arg_fp[i] = now
@@ -829,7 +840,10 @@ def execute(scn, ctx):
             if err:
                 viol.append({"invariant": "C10.shape_law", "detail": f"{err} [op {step}]", "tags": tags})
             # elementwise law
-            elif isinstance(x, np.ndarray) and x.ndim >= 1 and x.size > 0 and k in ("cm", "rate", "thr_at", "group_rate", "group_cm", "thr_at_metric"):
+            elif (isinstance(x, np.ndarray) or hasattr(x, "to_numpy")) and np.ndim(x) >= 1 and np.size(x) > 0 \
+                    and k in ("cm", "rate", "thr_at", "group_rate", "group_cm", "thr_at_metric"):
+                if hasattr(x, "to_numpy"):
+                    x = x.to_numpy()  # a Series argument is its values in positional order
                 for raw in op.get("idx", [])[:3]:
                     flat = raw % x.size
                     idx = np.unravel_index(flat, x.shape)
